@@ -1120,6 +1120,32 @@ func parseGuard(a Atom, be *BigEval) (Guard, bool) {
 // guardRank orders the two operands of a comparison: the subject of a guard is the operand that is less
 // "bound-like". 0: constants and freshly computed values; 1: quantities of trusted objects (keys, structure
 // descriptions, system parameters); 2: everything else (fields of messages and proofs, arguments, loop keys).
+// relBetween orients a comparison of two big.Ints as `subj REL bound`, whichever operand the code put first
+// (x.Cmp(p) < 0 and p.Cmp(x) > 0 are the same guard).
+func (g Guard) relBetween(subj string, bound Term) (string, bool) {
+	if g.Kind != "big" {
+		return "", false
+	}
+	if g.Subject == subj && g.Bound.equal(bound) {
+		return g.Rel, true
+	}
+	n := bound.opaqueName()
+	if n != "" && g.Subject == n && g.Bound.equal(tsym(subj)) {
+		return relFlip[g.Rel], true
+	}
+	// the object named subj may have been computed since (ret.Set(..); p.Cmp(ret)): go by the operands' names
+	if g.Call != nil && len(g.Call.Call.Args) == 2 && n != "" && g.Subject == n {
+		other := g.Call.Call.Args[1]
+		if g.SubjV == other {
+			other = g.Call.Call.Args[0]
+		}
+		if desc(other) == subj {
+			return relFlip[g.Rel], true
+		}
+	}
+	return "", false
+}
+
 func guardRank(d string) int {
 	switch {
 	case d == "":
